@@ -176,5 +176,24 @@ fn main() {
         let again = w.seal(&pkp).unwrap();
         println!("reseal_opens={}", again.unseal(&sk).is_ok());
     }
+    // ---- acceptance verdicts over the shared key-byte alphabet: a reduced build accepts exactly what the full build accepts
+    let cands: Vec<Vec<u8>> = art.get("cands").map(|c| c.split(',').filter(|x| !x.is_empty() || true).map(|h| hex::decode(h).unwrap_or_default()).collect()).unwrap_or_default();
+    fn verdicts<K: KeyType>(cands: &[Vec<u8>]) -> String
+    where
+        V: HasKey<K>,
+    {
+        cands.iter().map(|b| if Key::<V, K>::try_from(KeyText::<V, K>::from_raw_bytes(b)).is_ok() { '1' } else { '0' }).collect()
+    }
+    #[cfg(feature = "decrypting")]
+    println!("accept_local={}", verdicts::<Local>(&cands));
+    #[cfg(feature = "verifying")]
+    println!("accept_public={}", verdicts::<Public>(&cands));
+    #[cfg(feature = "signing")]
+    println!("accept_secret={}", verdicts::<Secret>(&cands));
+    #[cfg(feature = "pke")]
+    {
+        println!("accept_pke_public={}", verdicts::<PkePublic>(&cands));
+        println!("accept_pke_secret={}", verdicts::<PkeSecret>(&cands));
+    }
     println!("end=ok");
 }
